@@ -1,6 +1,7 @@
 package props
 
 import (
+	"sort"
 	"fmt"
 	"testing"
 	"testing/synctest"
@@ -75,4 +76,48 @@ func describeCore(cfg sim.CoreCfg, fs *sim.FateScript, app [2]sim.AppScript) map
 func bubble(t *testing.T, f func()) {
 	t.Helper()
 	synctest.Test(t, func(*testing.T) { f() })
+}
+
+// coreRetune is one tuning call on a raw core in mid-connection.
+type coreRetune struct {
+	AtMs int64
+	EP   int
+	Kind string // wnd | nodelay
+	A    [4]int
+}
+
+// drawCoreRetunes: up to three WndSize / NoDelay calls during the run. The
+// receive window is only raised (message mode needs room for a whole message).
+func drawCoreRetunes(t *rapid.T, cfg sim.CoreCfg) []coreRetune {
+	var out []coreRetune
+	for i, n := 0, rapid.SampledFrom([]int{0, 0, 1, 2, 3}).Draw(t, "nRetunes"); i < n; i++ {
+		r := coreRetune{AtMs: int64(rapid.SampledFrom([]int{3, 40, 250, 1500, 20_000}).Draw(t, "retuneAt")), EP: rapid.IntRange(0, 1).Draw(t, "retuneEP")}
+		if rapid.Bool().Draw(t, "retuneWnd") {
+			r.Kind = "wnd"
+			r.A[0] = rapid.SampledFrom([]int{1, 2, 4, 16, 64, 512}).Draw(t, "retuneSnd")
+			r.A[1] = cfg.EP[r.EP].RcvWnd * rapid.SampledFrom([]int{1, 2, 8}).Draw(t, "retuneRcvMul")
+		} else {
+			r.Kind = "nodelay"
+			r.A = [4]int{rapid.IntRange(0, 1).Draw(t, "rtNd"), rapid.SampledFrom([]int{10, 20, 40, 100, 200}).Draw(t, "rtIv"), rapid.SampledFrom([]int{0, 1, 2, 5}).Draw(t, "rtRs"), rapid.IntRange(0, 1).Draw(t, "rtNc")}
+		}
+		out = append(out, r)
+	}
+	sort.SliceStable(out, func(i, j int) bool { return out[i].AtMs < out[j].AtMs })
+	return out
+}
+
+func coreRetuneOps(rts []coreRetune) []sim.TimedOp {
+	var ops []sim.TimedOp
+	for _, r := range rts {
+		r := r
+		ops = append(ops, sim.TimedOp{At: r.AtMs, Name: fmt.Sprintf("%s%v at endpoint %d", r.Kind, r.A, r.EP), Fn: func(s *sim.CoreSim) error {
+			if r.Kind == "wnd" {
+				s.K[r.EP].WndSize(r.A[0], r.A[1])
+			} else {
+				s.K[r.EP].NoDelay(r.A[0], r.A[1], r.A[2], r.A[3])
+			}
+			return nil
+		}})
+	}
+	return ops
 }
